@@ -364,10 +364,12 @@ class RefsContainer:
             prefix is stripped from the ref names returned.
         """
         keys: set[Ref] = set()
-        base_len = len(base) + 1
+        # refs *under* the base: refs/heads/ab is not under refs/heads/a, and
+        # refs/heads/a itself is not under it either
+        prefix = base.rstrip(b"/") + b"/"
         for refname in self.allkeys():
-            if refname.startswith(base):
-                keys.add(Ref(refname[base_len:]))
+            if refname.startswith(prefix):
+                keys.add(Ref(refname[len(prefix) :]))
         return keys
 
     def as_dict(self, base: Ref | None = None) -> dict[Ref, ObjectID]:
@@ -954,9 +956,12 @@ class DiskRefsContainer(RefsContainer):
             if key.startswith(base):
                 subkeys.add(Ref(key[len(base) :].strip(b"/")))
 
+        # packed refs under the base, with the same boundary as the directory
+        # walk above: refs/heads/ab is not under refs/heads/a
+        prefix = base.rstrip(b"/") + b"/"
         for key in self.get_packed_refs():
-            if key.startswith(base):
-                subkeys.add(Ref(key[len(base) :].strip(b"/")))
+            if key.startswith(prefix):
+                subkeys.add(Ref(key[len(prefix) :]))
         return subkeys
 
     def allkeys(self) -> set[Ref]:
